@@ -86,6 +86,44 @@ impl<const N: usize> Out<N> {
             i += 1;
         }
     }
+    /// Loop-free-ish comparison against a zero-padded array of the same size (N % 16 == 0):
+    /// 16 bytes at a time as u128, so that the harness-wide unwind bound does not have to
+    /// cover a byte loop over the whole encoding.
+    pub fn eq_arr(&self, other: &[u8; N], other_len: usize) -> bool {
+        if self.n != other_len {
+            return false;
+        }
+        let mut k = 0;
+        let mut same = true;
+        while k + 16 <= N {
+            let a = u128::from_le_bytes([
+                self.b[k], self.b[k + 1], self.b[k + 2], self.b[k + 3], self.b[k + 4], self.b[k + 5], self.b[k + 6], self.b[k + 7],
+                self.b[k + 8], self.b[k + 9], self.b[k + 10], self.b[k + 11], self.b[k + 12], self.b[k + 13], self.b[k + 14], self.b[k + 15],
+            ]);
+            let b = u128::from_le_bytes([
+                other[k], other[k + 1], other[k + 2], other[k + 3], other[k + 4], other[k + 5], other[k + 6], other[k + 7],
+                other[k + 8], other[k + 9], other[k + 10], other[k + 11], other[k + 12], other[k + 13], other[k + 14], other[k + 15],
+            ]);
+            same &= a == b;
+            k += 16;
+        }
+        same
+    }
+    /// Same against a byte slice of at most N bytes (copied into a zero-padded array first).
+    pub fn eq_bytes(&self, s: &[u8]) -> bool {
+        if s.len() > N {
+            return false;
+        }
+        let mut a = [0u8; N];
+        a[..s.len()].copy_from_slice(s);
+        self.eq_arr(&a, s.len())
+    }
+    /// Append a slice whose length may be symbolic (memcpy, no loop).
+    pub fn put_sym(&mut self, s: &[u8]) {
+        let l = s.len();
+        self.b[self.n..self.n + l].copy_from_slice(s);
+        self.n += l;
+    }
     pub fn eq_slice(&self, s: &[u8]) -> bool {
         if s.len() != self.n {
             return false;
